@@ -13,6 +13,57 @@ theorem chunkBytes_length_pos (e : ChunkEv) : 1 ≤ (chunkBytes e).length := by
   have := basicHeader_length_pos e.fmt e.cid e.bhForm
   simp only [chunkBytes, List.length_append]; omega
 
+/-! `NoExtendedDelta` / `EndsComplete` along the run of either reading (`a = false`: the specification;
+`a = true`: the deviating "extended field is absolute" reading, under which no event is excluded). -/
+
+def noExtA (a : Bool) : Sender → List ChunkEv → Bool
+  | _, [] => true
+  | s, e :: tr =>
+    (a || !decide (UsesExtDelta s e)) &&
+      match step a s e with
+      | some (s', _) => noExtA a s' tr
+      | none => true
+
+def endsA (a : Bool) : Sender → List ChunkEv → Bool
+  | _, [] => true
+  | s, e :: tr =>
+    match step a s e with
+    | some (s', out) => if tr.isEmpty then out.isSome else endsA a s' tr
+    | none => false
+
+theorem noExtA_false : ∀ (tr : List ChunkEv) (s : Sender), noExtA false s tr = noExtDeltaFrom s tr := by
+  intro tr
+  induction tr with
+  | nil => intro s; rfl
+  | cons e tr ih =>
+    intro s
+    simp only [noExtA, noExtDeltaFrom, Bool.false_or]
+    cases step false s e with
+    | none => rfl
+    | some r => simp only [ih]
+
+theorem noExtA_true : ∀ (tr : List ChunkEv) (s : Sender), noExtA true s tr = true := by
+  intro tr
+  induction tr with
+  | nil => intro s; rfl
+  | cons e tr ih =>
+    intro s
+    simp only [noExtA, Bool.true_or, Bool.true_and]
+    cases step true s e with
+    | none => rfl
+    | some r => simp only [ih]
+
+theorem endsA_false : ∀ (tr : List ChunkEv) (s : Sender), endsA false s tr = endsCompleteFrom s tr := by
+  intro tr
+  induction tr with
+  | nil => intro s; rfl
+  | cons e tr ih =>
+    intro s
+    simp only [endsA, endsCompleteFrom]
+    cases step false s e with
+    | none => rfl
+    | some r => simp only [ih]
+
 /-- `readChunk` applied `n` times, collecting the completed messages (the chunk-level view of the
 `for m == nil` loop of `ReadMessage` over several calls). -/
 def readChunks : Nat → Reader → Bytes → Res ((List Msg × Reader) × Bytes)
@@ -23,8 +74,8 @@ def readChunks : Nat → Reader → Bytes → Res ((List Msg × Reader) × Bytes
     pure ((optList m ++ ms, st), bs)
 
 /-- Chunk level: every conformant trace without extended delta, from any related pair of states. -/
-theorem decode_chunks_from : ∀ (tr : List ChunkEv) (s s' : Sender) (st : Reader) (ms : List Message) (rest : Bytes),
-    Rel s st → run s tr = some (s', ms) → noExtDeltaFrom s tr = true →
+theorem decode_chunks_from (a : Bool) : ∀ (tr : List ChunkEv) (s s' : Sender) (st : Reader) (ms : List Message) (rest : Bytes),
+    Rel s st → run a s tr = some (s', ms) → noExtA a s tr = true →
     ∃ rms st', readChunks tr.length st (specBytes tr ++ rest) = ok ((rms, st'), rest) ∧
       rms.map toSpec = ms ∧ Rel s' st' := by
   intro tr
@@ -37,21 +88,21 @@ theorem decode_chunks_from : ∀ (tr : List ChunkEv) (s s' : Sender) (st : Reade
   | cons e tr ih =>
     intro s s' st ms rest hrel hrun hno
     simp only [run] at hrun
-    cases hstep : step s e with
+    cases hstep : step a s e with
     | none => rw [hstep] at hrun; simp at hrun
     | some r =>
       obtain ⟨s1, out⟩ := r
       rw [hstep] at hrun
       simp only at hrun
-      cases hrun1 : run s1 tr with
+      cases hrun1 : run a s1 tr with
       | none => rw [hrun1] at hrun; simp at hrun
       | some r1 =>
         obtain ⟨s2, ms1⟩ := r1
         rw [hrun1] at hrun
         simp only [Option.some.injEq, Prod.mk.injEq] at hrun
         obtain ⟨rfl, rfl⟩ := hrun
-        simp only [noExtDeltaFrom, hstep, Bool.and_eq_true, Bool.not_eq_true', decide_eq_false_iff_not] at hno
-        obtain ⟨st1, om, hrc, hrel1, hom⟩ := readChunk_spec s s1 st e out (specBytes tr ++ rest) hrel hstep hno.1
+        simp only [noExtA, hstep, Bool.and_eq_true, Bool.or_eq_true, Bool.not_eq_true', decide_eq_false_iff_not] at hno
+        obtain ⟨st1, om, hrc, hrel1, hom⟩ := readChunk_spec a s s1 st e out (specBytes tr ++ rest) hrel hstep hno.1
         obtain ⟨rms, st', hrd, hmap, hrel'⟩ := ih s1 s2 st1 ms1 rest hrel1 hrun1 hno.2
         refine ⟨optList om ++ rms, st', ?_, ?_, hrel'⟩
         · simp only [specBytes, List.length_cons, readChunks, List.append_assoc, hrc, Res.bind_ok, hrd, Res.pure_eq]
@@ -70,8 +121,8 @@ theorem readMessage_chunk_none {st st1 : Reader} {bs bs1 : Bytes} {r : (Msg × R
   exact readLoop_mono _ _ _ _ _ (by omega) h1
 
 /-- Message level: a conformant trace without extended delta whose last chunk completes a message. -/
-theorem decode_from : ∀ (tr : List ChunkEv) (s s' : Sender) (st : Reader) (ms : List Message) (rest : Bytes),
-    Rel s st → run s tr = some (s', ms) → noExtDeltaFrom s tr = true → endsCompleteFrom s tr = true →
+theorem decode_from (a : Bool) : ∀ (tr : List ChunkEv) (s s' : Sender) (st : Reader) (ms : List Message) (rest : Bytes),
+    Rel s st → run a s tr = some (s', ms) → noExtA a s tr = true → endsA a s tr = true →
     ∃ rms st', readMessages ms.length st (specBytes tr ++ rest) = ok ((rms, st'), rest) ∧
       rms.map toSpec = ms ∧ Rel s' st' := by
   intro tr
@@ -84,23 +135,23 @@ theorem decode_from : ∀ (tr : List ChunkEv) (s s' : Sender) (st : Reader) (ms 
   | cons e tr ih =>
     intro s s' st ms rest hrel hrun hno hends
     simp only [run] at hrun
-    cases hstep : step s e with
+    cases hstep : step a s e with
     | none => rw [hstep] at hrun; simp at hrun
     | some r =>
       obtain ⟨s1, out⟩ := r
       rw [hstep] at hrun
       simp only at hrun
-      cases hrun1 : run s1 tr with
+      cases hrun1 : run a s1 tr with
       | none => rw [hrun1] at hrun; simp at hrun
       | some r1 =>
         obtain ⟨s2, ms1⟩ := r1
         rw [hrun1] at hrun
         simp only [Option.some.injEq, Prod.mk.injEq] at hrun
         obtain ⟨rfl, rfl⟩ := hrun
-        simp only [noExtDeltaFrom, hstep, Bool.and_eq_true, Bool.not_eq_true', decide_eq_false_iff_not] at hno
-        simp only [endsCompleteFrom, hstep] at hends
-        obtain ⟨st1, om, hrc, hrel1, hom⟩ := readChunk_spec s s1 st e out (specBytes tr ++ rest) hrel hstep hno.1
-        have hends1 : endsCompleteFrom s1 tr = true := by
+        simp only [noExtA, hstep, Bool.and_eq_true, Bool.or_eq_true, Bool.not_eq_true', decide_eq_false_iff_not] at hno
+        simp only [endsA, hstep] at hends
+        obtain ⟨st1, om, hrc, hrel1, hom⟩ := readChunk_spec a s s1 st e out (specBytes tr ++ rest) hrel hstep hno.1
+        have hends1 : endsA a s1 tr = true := by
           cases tr with
           | nil => rfl
           | cons _ _ => simpa using hends
